@@ -131,6 +131,24 @@ Theorem C11_bech32_decode_encode : forall hrp s ver prog, decode hrp s = Some (v
 Proof. exact segwit_decode_encode. Qed.
 Print Assumptions C11_bech32_decode_encode.
 
+(* Both theorems quantify over ALL strings and ALL human-readable parts, those containing the separator character
+   '1' included: the model splits at the LAST '1' (rfind), exactly as the code does, and compares the decoded hrp
+   with the caller's for equality.  So an address whose real hrp is "bc1" is NOT an address of "bc" although it
+   starts with "bc1" — by C11_bech32_decode_encode anything decode("bc", s) accepts re-encodes under "bc" to
+   lower(s).  bc11qqqqsyqcyq5rqwzqfpg9scrgwpugpzysnycvmza : *)
+Definition C11_bc1_addr : pystr :=
+  [98; 99; 49; 49; 113; 113; 113; 113; 115; 121; 113; 99; 121; 113; 53; 114; 113; 119; 122; 113; 102; 112; 103; 57;
+   115; 99; 114; 103; 119; 112; 117; 103; 112; 122; 121; 115; 110; 121; 99; 118; 109; 122; 97]%N.
+Example C11_hrp_containing_separator :
+  decode [98; 99]%N C11_bc1_addr = None
+  /\ decode [98; 99; 49]%N C11_bc1_addr = Some (0, [0; 1; 2; 3; 4; 5; 6; 7; 8; 9; 10; 11; 12; 13; 14; 15; 16; 17; 18; 19])
+  /\ encode [98; 99; 49]%N 0 [0; 1; 2; 3; 4; 5; 6; 7; 8; 9; 10; 11; 12; 13; 14; 15; 16; 17; 18; 19] = Ret (Some C11_bc1_addr)
+  /\ hrp_ok [98; 99; 49]%N.
+Proof.
+  split; [vm_compute; reflexivity|]. split; [vm_compute; reflexivity|]. split; [vm_compute; reflexivity|].
+  split; [repeat constructor; lia|split; [repeat constructor|cbn; lia]].
+Qed.
+
 Example C11_triple_ok_example : triple_ok [98; 99]%N 1 (repeat 7 32).
 Proof.
   split; [|lia|repeat constructor; lia|cbn; lia|lia|vm_compute; congruence].
